@@ -97,6 +97,7 @@ func closedFile() *os.File {
 
 func checkC19(c c19Case, rec *Rec) *Violation {
 	const id = "C19"
+	trackCase(id, "C19:process-killed", c)
 	slog.SetDefault(slog.New(slog.NewTextHandler(io.Discard, nil))) // "cannot retrieve" noise is expected
 	oracleEn, err := newEngSet(stringBacked(c.Lists))
 	if err != nil {
